@@ -395,7 +395,7 @@ func (ps *parser) typ() *TypeExpr {
 	if name == "chan" {
 		return &TypeExpr{Kind: "chan", Elem: ps.typ()}
 	}
-	if name == "set" {
+	if name == "set" && ps.isOp("[") {
 		ps.expect("[")
 		k := ps.typ()
 		ps.expect("]")
